@@ -19,6 +19,17 @@ statement does not let the obligation depend on it); the scripted processor retu
 requests / notifications / processor invocations in the order they happened; the oracle below applies the rules of
 the abstract layer to that log.  The number and the times of processor runs are NOT compared with the model: extra
 (spurious) runs are free, only a run later than a deadline or a missing run is a contradiction.
+
+Schedules (spec/tick/EventDrivenConc.tla; driver timingmisc/eventdriven_conc).  A wake request is not atomic: in
+EventDrivenConc.tla ScheduleWakeAt is two steps of the calling thread (look at / write the guard; hand the timer to the
+engine) and the thread that runs Handle (processor requests) is interleaved with the threads of other handlers of the
+same instant that notify or request, in rounds like those of the parallel engine.  TLC checks WakeNoLaterThan for
+every interleaving, refutes a control (guard written after the engine call + Handle dropping a timer that fires
+before the armed guard) and emits the graph.  Binding B3 without a hook: the component reaches its engine only through
+timing.EventScheduler, so it is built on a scheduler of the harness whose Schedule parks the calling goroutine; every
+transition of the graph, seeded walks and every "operation invoked while another thread is inside ScheduleWakeAt"
+window (completed in both orders) are replayed with real goroutines, one running at a time; the log is judged by the
+same oracle (an operation raises its obligation when it is invoked).
 """
 import json, os
 from vlib import core, objcheck
@@ -95,6 +106,120 @@ def tlc_judge(ck, logs, expect_accept):
     return r.ok, n
 
 
+def conc_phase(ck, q, binary, accepted, rejected):
+    """The schedules of EventDrivenConc.tla replayed through a gate-controlled timing.EventScheduler.
+    Returns (histories replayed, log entries, processor runs)."""
+    cfg = "EventDrivenConc_q.cfg" if q else "EventDrivenConc_t.cfg"
+    g, r = objcheck.graph_from_tlc(ck, ["tick"], "EventDrivenConc", cfg, workers=4 if q else 8, timeout=900)
+    rc = ck.run_tlc(["tick"], "EventDrivenConc", "EventDrivenConc_control.cfg", workers=2, timeout=300)
+    if rc.ok or rc.violated != "WakeNoLaterThan":
+        raise core.Broken("control EventDrivenConc_control.cfg: TLC did not refute WakeNoLaterThan for the guard written after the "
+                          "engine call + dropped early timers (ok=%s violated=%s)" % (rc.ok, rc.violated))
+    if not q:
+        for c in ("EventDrivenConc_reorder.cfg", "EventDrivenConc_droponly.cfg"):     # each change alone is harmless: the spec must not forbid it
+            rh = ck.run_tlc(["tick"], "EventDrivenConc", c, workers=4, timeout=600)
+            if not rh.ok:
+                raise core.Broken("%s is expected to hold but TLC reports %s %s" % (c, rh.violated, rh.error))
+    threads = sorted(set(g.nodes[g.inits[0]]["pc"].keys()) - {"h"})
+    cover = g.edge_cover(rng=ck.rng)
+    walks = g.random_walks(ck.rng, 200 if q else 3000, 40 if q else 60)
+    # race windows: an operation is invoked while another thread is parked between its guard step and its engine call;
+    # the history stops there and the driver completes the parked operations in both orders (config "tail")
+    windows, shapes = [], {}
+    for (s0, a, s1) in g.edges:
+        if s0 not in g.parent:
+            continue
+        pc = g.nodes[s0]["pc"]
+        if (a["op"] == "nbegin" and any(v == "sched" for k, v in pc.items() if k != a["th"])) or \
+                (a["op"] == "hreq" and any(v == "sched" for k, v in pc.items() if k != "h")):
+            root, steps = g.path_to(s0)
+            st = g.nodes[s0]
+            nowake = max(int(k) for k in st["queue"]) + 1
+            # shape of a window: who is parked on a wakeup how far ahead, what the guard names, what is invoked
+            shape = core.canon([a["op"], a["th"], a["d"], sorted(pc.items()),
+                                sorted((k, st["tt"][k] - st["now"]) for k, v in pc.items() if v == "sched"),
+                                None if st["pending"] == nowake else st["pending"] - st["now"], st["ready"] > 0])
+            shapes.setdefault(shape, []).append(len(windows))
+            windows.append(g.history(root, list(steps) + [(a, s1)]))
+    n_windows = len(windows)
+    if not n_windows:
+        raise core.Broken("EventDrivenConc: no race window in the graph")
+    cap = 1000 if q else 20000
+    n_cover_all = len(cover)
+    if len(cover) > cap:
+        cover = ck.rng.sample(cover, cap)
+    plans = []      # (histories, notify, tail)
+    if q:
+        # at least one window of every shape, then a seeded sample; each in both completion orders, the notification variant alternates
+        pick = [ck.rng.choice(ix) for _, ix in sorted(shapes.items())]
+        rest = sorted(set(range(n_windows)) - set(pick))
+        pick += ck.rng.sample(rest, max(0, min(len(rest), 700 - len(pick))))
+        ck.rng.shuffle(pick)
+        half = len(pick) // 2
+        wa, wb = [windows[i] for i in pick[:half]], [windows[i] for i in pick[half:]]
+        plans += [(wa, "direct", "h_first"), (wa, "direct", "n_first"), (wb, "port", "h_first"), (wb, "port", "n_first")]
+        n_win_replayed = len(pick)
+    else:
+        for tail in ("h_first", "n_first"):
+            for nv in ("direct", "port"):
+                plans.append((windows, nv, tail))
+        n_win_replayed = n_windows
+    for nv, tail in ((("direct", "n_first"), ("port", "h_first")) if q else
+                     (("direct", "n_first"), ("port", "h_first"), ("direct", "h_first"), ("port", "n_first"))):
+        plans.append((cover + walks, nv, tail))
+    n_hist = entries = runs = parks = races = 0
+    racy = set()
+    for pi, (hs, nv, tail) in enumerate(plans):
+        cfgd = {"notify": nv, "tail": tail, "threads": threads, "tail_idle": pi % 2 == 1}
+        B = 4000
+        for i in range(0, len(hs), B):
+            # the driver takes the schedule only (the actions); the states of the specification are not sent
+            lean = [{"init": None, "steps": [{"a": s["a"]} for s in h["steps"]]} for h in hs[i:i + B]]
+            out = core.harness(binary, "eventdriven_conc", {"config": cfgd, "histories": lean}, timeout=900)
+            for j, (log, err) in enumerate(zip(out["logs"], out["errors"])):
+                h = lean[j]
+                ops = [[s["a"]["op"], s["a"]["th"], s["a"]["d"]] for s in h["steps"]]
+                rp = {"driver": "eventdriven_conc", "config": cfgd, "history": {"init": h["init"], "steps": h["steps"]}, "log": log}
+                n_hist += 1
+                entries += len(log or [])
+                runs += sum(1 for e in log or [] if e[0] == "run")
+                parks += out["parks"][j]
+                races += out["races"][j]
+                if out["races"][j]:
+                    racy.add(core.canon(ops))
+                key = {"mode": "gated_schedule", "notify": nv, "tail": tail}
+                if err:
+                    rejected.append((0, dict(key, what="panic"), "replaying schedule %s (%s, tail %s): %s" % (ops, nv, tail, err), rp, None))
+                    continue
+                v = judge(log)
+                if v:
+                    what, src, deadline, at, idx = v
+                    desc = ("%s run under a gated schedule: a %s for time %d, invoked while %s, is followed by %s; schedule %s, "
+                            "parked operations completed %s (%s); log %s" % (
+                                what, src, deadline,
+                                "another thread was inside ScheduleWakeAt" if out["races"][j] else "no other thread was inside ScheduleWakeAt",
+                                ("an entry at time %d with no processor run in between" % at) if what == "late" else "the end of the simulation without a run",
+                                ops, tail, nv, log[:idx + 1]))
+                    rejected.append((len(log), dict(key, what=what, source=src, after_idle_run=after_idle_run(log, v)), desc, rp, log))
+                else:
+                    accepted.append(log)
+    if not parks or not races:
+        raise core.Broken("gated scheduler: no goroutine parked inside Schedule (%d) / no operation overlapped another (%d)" % (parks, races))
+    ck.cov["traces_validated_against_impl"] += n_hist
+    ck.cov["distinct_nontrivial"] += len(racy)
+    ck.cov["gated_schedules"] = {"spec": "EventDrivenConc/" + cfg, "states": r.distinct, "transitions": len(g.edges), "threads": ["h"] + threads,
+                                 "edge_cover_histories": len(cover), "walks": len(walks), "edge_cover_histories_in_graph": n_cover_all,
+                                 "race_windows_in_graph": n_windows, "race_window_shapes": len(shapes), "race_windows_replayed": n_win_replayed, "replays": n_hist, "goroutine_parks_in_Schedule": parks,
+                                 "operations_invoked_while_another_thread_was_parked": races,
+                                 "distinct_schedules_with_such_an_overlap": len(racy)}
+    ck.sample({"gated_schedule": [[s["a"]["op"], s["a"]["th"], s["a"]["d"]] for s in windows[ck.rng.randrange(n_windows)]["steps"]]})
+    ck.note("gated schedules (EventDrivenConc, %d states / %d transitions, threads h+%s): %d replays (%d edge-cover histories + %d walks in %d "
+            "notify/tail combinations; %d of %d race windows (all %d shapes) in both completion orders), %d parks inside Schedule, "
+            "%d operations invoked while another thread was parked" % (
+                r.distinct, len(g.edges), "+".join(threads), n_hist, len(cover), len(walks), len(plans) - 4, n_win_replayed, n_windows, len(shapes), parks, races))
+    return n_hist, entries, runs
+
+
 def _selftest():
     ok = [["req", 0, 2], ["run", 1, 0], ["end", 1, 0]]
     late = [["req", 0, 1], ["run", 2, 0], ["end", 2, 0]]
@@ -125,9 +250,16 @@ def run(ck):
                       "replayed on a real EventDrivenComponent + SerialEngine in 3 delivery modes and 3 notification variants "
                       "(direct call, real loop-back port, another goroutine while the processor is parked), notifications "
                       "inside a processor run included, plus overlap scenarios on a real ParallelEngine; the log of processor "
-                      "invocations is judged by the abstract rules (late / missing run). Non-trivial = distinct history with a "
-                      "request while another wakeup is pending, or a request made by the processor.")
+                      "invocations is judged by the abstract rules (late / missing run). Schedules: TLC enumerates the "
+                      "complete graph of EventDrivenConc.tla (ScheduleWakeAt = guard step + engine call, processor thread "
+                      "interleaved with notifier threads, engine rounds) and every transition, seeded walks and every race window "
+                      "in both completion orders are replayed with real goroutines parked inside a harness EventScheduler. "
+                      "Non-trivial = distinct history with a request while another wakeup is pending, or a request made by the "
+                      "processor, or (gated schedules) an operation invoked while another thread is inside ScheduleWakeAt.")
     ck.assumptions += ["one component; requests are never in the past (the statement excludes them)",
+                       "gated schedules: a thread can be stopped only at the component's call into the engine (guard check and "
+                       "guard write are one step); an operation raises its obligation when it is invoked; events scheduled "
+                       "during an engine round are dispatched in a later round",
                        "a notification's deadline is the instant it is delivered at",
                        "extra processor runs are allowed"]
 
@@ -244,6 +376,10 @@ def run(ck):
         else:
             accepted.append(log)
     ck.cov["notifications_during_a_run"] = in_run_notes
+    # schedules: ScheduleWakeAt split at the engine call, interleaved with other threads (EventDrivenConc.tla)
+    n_conc, e_conc, r_conc = conc_phase(ck, q, binary, accepted, rejected)
+    total_entries += e_conc
+    runs += r_conc
     # the same judgement by TLC (EventDrivenTrace.tla): all accepted logs (bounded), and the shortest rejected ones
     budget = 12000 if q else 150000
     part, size = [], 0
@@ -277,7 +413,10 @@ def run(ck):
 def replay(ck, doc):
     """Re-run a recorded contradiction (replays/C13-*.json) on the real component."""
     rp = doc["replay"]
-    if rp.get("driver") == "eventdriven_parallel":
+    if rp.get("driver") == "eventdriven_conc":
+        out = core.harness(ck.binary("timingmisc"), "eventdriven_conc", {"config": rp["config"], "histories": [rp["history"]]})
+        rp = dict(rp, config=dict(rp["config"], mode="gated_schedule"))
+    elif rp.get("driver") == "eventdriven_parallel":
         out = core.harness(ck.binary("timingmisc"), "eventdriven_parallel", {"scenarios": [rp["scenario"]]})
         rp = dict(rp, config={"mode": "parallel_engine", "notify": rp["scenario"]["notify"]})
     else:
